@@ -15,8 +15,15 @@ namespace Inv.Exec
 
 abbrev Name := List Char
 
-/-- argument values that occur in the checks: ints and strings (`1 == "1"` is false in Python too) -/
-inductive AVal | int (i : Int) | str (s : List Char)
+/-- argument values.  All the executor ever does with an argument is compare it with `==` (through
+    `Call.__eq__`) and pass it on, so a value is modelled by its EQUALITY CLASS: the correspondence check
+    numbers the values of a case by Python `==` (`1`, `1.0` and `True` are one class; two equal lists
+    built separately are one class; every NaN object is a class of its own) and sends the numbers as
+    `int`s.  Whether a value is hashable is NOT part of the model - equality is; an executor that treats
+    equal unhashable arguments differently from equal hashable ones disagrees with the model.
+    `compound` is there to write compound values (a list, dict, set … given by a kind and the classes
+    of its parts) in examples. -/
+inductive AVal | int (i : Int) | str (s : List Char) | compound (kind : Nat) (parts : List Int)
   deriving DecidableEq, Repr
 
 abbrev KW := List (Name × AVal)
